@@ -9,14 +9,15 @@ RULE = (
     "lacking the contest}, grown one ballot at a time, x every reported winner (right or wrong) x both shipped difficulty "
     "functions; the returned list is judged against a brute-force reference (universe of all true NEB/NEN assertions "
     "with recounted tallies; all n! elimination orders).  Every state of size < B is additionally executed with the "
-    "ballots supplied in reverse order (differential pass).  Non-trivial = run returning a non-empty list; distinct = "
+    "ballots supplied in reverse order (differential pass), and every non-empty answer is asked for again with a non-default search gap (agap 0.5 and 3: "
+    "the result may be harder to audit, never untrue or insufficient).  Non-trivial = run returning a non-empty list; distinct = "
     "distinct (n, winner, function, returned assertion set)"
 )
 ASSUMPTIONS = [
     "total auditable ballots = number of cards that contain the contest (blank included)",
     "oracle self-check: whenever the reported winner is not the unique possible IRV winner (all tie-breaks) the universe of true assertions must be insufficient",
 ]
-REQUIRE_VAC = ["nonempty_results", "empty_results", "wrong_winner_runs", "profiles_with_tie", "results_with_NEN"]
+REQUIRE_VAC = ["nonempty_results", "empty_results", "wrong_winner_runs", "profiles_with_tie", "results_with_NEN", "runs_with_search_gap", "search_gap_changes_result"]
 
 PLAN = {"quick": [(2, 6), (3, 5), (4, 2)], "thorough": [(2, 8), (3, 7), (4, 3), (5, 2)]}
 
@@ -25,6 +26,9 @@ def bounds(tier):
     return {"weighted families (name: candidates, #types, max distinct types, weights)": {k: [v[0], len(v[1]), v[2], list(v[3])] + ([{"added to every profile": f"{len(v[4][0])} single-choice types with weights from {list(v[4][1])}"}] if len(v) > 4 else []) for k, v in s2r.families(tier).items()},
             "(candidates, max ballots)": PLAN[tier], "alphabet_sizes": {n: len(R.rankings(n)) + 1 for n, _ in PLAN[tier]},
             "winners": "all", "difficulty_functions": ["bp_estimate", "cp_estimate"]}
+
+
+AGAPS = (0.5, 3.0)
 
 
 def judge(n, prof, winner, kind, norm, ana=None):
@@ -102,6 +106,17 @@ def run_shard(sh, rec):
                     rec.vac("empty_results")
                 for key, what in v:
                     rec.violate(key, what, {"n": n, "profile": list(prof), "winner": winner, "kind": kind, "reverse": False})
+                if isinstance(norm, list) and norm and (weighted or len(prof) < maxB or n <= 3):
+                    # a non-default search gap may return a harder set, never an insufficient or untrue one
+                    for agap in (AGAPS if (TIER_ACTIVE == "thorough" or n <= 3) else (AGAPS[sum(prof) % 2],)):
+                        norm3, _, _ = s2r.call_raire(n, prof, winner, kind, agap=agap)
+                        rec.evals()
+                        rec.trans()
+                        rec.vac("runs_with_search_gap")
+                        if repr(norm3) != repr(norm):
+                            rec.vac("search_gap_changes_result")
+                        for key, what in judge(n, prof, winner, kind, norm3, ana):
+                            rec.violate(key + "|agap", what + f" [agap={agap}]", {"n": n, "profile": list(prof), "winner": winner, "kind": kind, "reverse": False, "agap": agap})
                 if not weighted and len(prof) < maxB:
                     norm2, _, _ = s2r.call_raire(n, prof, winner, kind, reverse=True)
                     rec.evals()
@@ -131,6 +146,9 @@ def explore(tier, seed):
 
 def run_case(case):
     n, prof, winner, kind = case["n"], tuple(case["profile"]), case["winner"], case["kind"]
+    if case.get("agap") is not None:
+        norm3, _, _ = s2r.call_raire(n, prof, winner, kind, agap=case["agap"])
+        return [(k + "|agap", w) for k, w in judge(n, prof, winner, kind, norm3)]
     norm, _, _ = s2r.call_raire(n, prof, winner, kind)
     out = judge(n, prof, winner, kind, norm)
     if case.get("reverse"):
